@@ -353,7 +353,7 @@ func TestExhaustive(t *testing.T) {
 // ---------------------------------------------------------------------------
 // random type-directed trees
 
-var numLits = []string{"0", "1", "2", "3", "7", "10", "0.5", "2.5", "123.456", "1.234560e+02", "1e+02", "100000", "123456789", "1e+308", "0.001"}
+var numLits = []string{"0", "1", "2", "3", "7", "10", "0.5", "2.5", "1.5", "7.9", "123.456", "1.234560e+02", "1e+02", "100000", "123456789", "1e+308", "0.001"}
 var strLits = []string{"", "a", "b", "abc", "ab", "1", "A", "a b", "é", "^a", "a.c", "[a-c]+", "b$", "a|b", "x'y", `x"y`, "line\nbreak", "tab\t."}
 var layouts = []string{"", "", "", "  ", "\n", "\n  ", "\t"}
 var kwCase = map[string][]string{
@@ -440,12 +440,12 @@ func (g gen) expr(t string, depth int) *lang.E {
 		if op == "modint" || op == "div" || op == "divint" {
 			// keep most divisors simple and non-zero so the case stays specified
 			if g.pick(4, "div") != 0 {
-				r = lang.Num([]string{"1", "2", "3", "7", "10"}[g.pick(5, "dv")])
+				r = lang.Num([]string{"1", "2", "3", "7", "10", "2.5", "1.5", "3.7"}[g.pick(8, "dv")])
 			}
 		}
 		l := g.expr("n", depth-1)
 		if op == "modint" && g.pick(4, "modl") != 0 {
-			l = lang.Num([]string{"0", "1", "7", "10", "123456789"}[g.pick(5, "ml")])
+			l = lang.Num([]string{"0", "1", "7", "10", "123456789", "4", "5", "12", "7.9", "5.2"}[g.pick(10, "ml")])
 		}
 		return g.decorate(lang.Op(op, l, r))
 	case "s":
@@ -458,7 +458,18 @@ func (g gen) expr(t string, depth int) *lang.E {
 			return g.decorate(lang.Op([]string{"and", "or"}[g.pick(2, "ao")], g.expr("b", depth-1), g.expr("b", depth-1)))
 		case 3:
 			ot := []string{"n", "s"}[g.pick(2, "ct")]
-			return g.decorate(lang.Op([]string{">=", "<=", ">", "<"}[g.pick(4, "cop")], g.expr(ot, depth-1), g.expr(ot, depth-1)))
+			l, r := g.expr(ot, depth-1), g.expr(ot, depth-1)
+			if ot == "n" && g.pick(6, "nan") == 0 {
+				// NaN without dividing by zero: (1e+308 * 10) - (1e+308 * 10)
+				inf := func() *lang.E { return lang.Op("times", lang.Num("1e+308"), lang.Num("10")) }
+				nan := lang.Op("minus", inf(), inf())
+				if g.pick(2, "nanside") == 0 {
+					l = nan
+				} else {
+					r = nan
+				}
+			}
+			return g.decorate(lang.Op([]string{">=", "<=", ">", "<"}[g.pick(4, "cop")], l, r))
 		case 4:
 			ot := []string{"n", "s", "b", "u"}[g.pick(4, "et")]
 			return g.decorate(lang.Op([]string{"==", "!="}[g.pick(2, "eop")], g.expr(ot, depth-1), g.expr(ot, depth-1)))
